@@ -296,3 +296,14 @@ class SealingClient(Client):
 
 
 CLIENT_CLASSES["sealing"] = SealingClient
+
+
+class FalsyClient(Client):
+    """a container-like client: len(client) is the number of commands it has queued up for a later flush - none in these
+    checks, so the object is falsy all the time (`if not client` is not a test for None)"""
+
+    def __len__(self):
+        return 0
+
+
+CLIENT_CLASSES["falsy"] = FalsyClient
